@@ -200,12 +200,13 @@ FORMAT_ALG = {"md5": "md5", "sha1": "sha1", "c4": "sha512", "xxh32": "xxh32", "x
 
 # --------------------------------------------------------------------------------------------- file system
 class Node:
-    __slots__ = ("kind", "cid", "size", "mtime", "content", "ino")
+    __slots__ = ("kind", "cid", "size", "mtime", "content", "ino", "target")
     _ino = [0]
 
     def __init__(self, kind, cid=None, size=None, mtime=0):
         self.kind, self.cid, self.size, self.mtime = kind, cid, size, mtime
         self.content = None  # written files: list of bytes pieces
+        self.target = None  # kind "link": the absolute path the symbolic link points to
         Node._ino[0] += 1
         self.ino = Node._ino[0]
 
@@ -215,6 +216,7 @@ class Node:
     def clone(self):
         n = Node(self.kind, self.cid, self.size, self.mtime)
         n.content = None if self.content is None else list(self.content)
+        n.target = self.target
         return n
 
 
@@ -410,6 +412,7 @@ class World:
         self.open_writers = []
         self.crash_at = None  # index into the operation log at which the process is killed
         self.crash_torn = False  # the write at that index is applied partially
+        self.links = 0  # number of symbolic links ever created (0: path resolution is the identity)
 
     # ---- helpers for harnesses
     def fresh_cid(self):
@@ -452,6 +455,15 @@ class World:
         n.cid = self.content_cid(n)
         return n
 
+    def add_link(self, path, target, mtime=1577836800):
+        """a symbolic link at `path` pointing to the absolute path `target`"""
+        self.mkdirs(posixpath.dirname(path))
+        n = Node("link", None, len(target), mtime)
+        n.target = target
+        self.nodes[path] = n
+        self.links += 1
+        return n
+
     def mkdirs(self, p, mtime=1577836800):
         if p not in self.nodes:
             self.mkdirs(posixpath.dirname(p), mtime)
@@ -467,7 +479,7 @@ class World:
 
     def snapshot(self):
         """identity snapshot for 'nothing changed' assertions: path -> (kind, cid, size, mtime, ncontent)"""
-        return {p: (n.kind, n.cid, n.size, n.mtime, None if n.content is None else len(n.content))
+        return {p: (n.kind, n.cid, n.size, n.mtime, None if n.content is None else len(n.content), n.target)
                 for p, n in self.nodes.items()}
 
     def clone(self):
@@ -480,7 +492,7 @@ class World:
         return w
 
     # ---- os surface
-    def _norm(self, p):
+    def _abs(self, p):
         if isinstance(p, bytes):
             raise ModelGap("bytes path")
         if not isinstance(p, str):
@@ -489,6 +501,32 @@ class World:
         if not p.startswith("/"):
             p = posixpath.join(self.cwd, p)
         return posixpath.normpath(p)
+
+    def _norm(self, p, follow=True):
+        """absolute, normalised, and with symbolic links resolved (the last component only if `follow`)"""
+        p = self._abs(p)
+        return self._resolve(p, follow) if self.links else p
+
+    def _resolve(self, p, follow, depth=0):
+        parts = [c for c in p.split("/") if c]
+        cur = ""
+        for i, c in enumerate(parts):
+            cur = cur + "/" + c
+            n = self.nodes.get(cur)
+            if n is not None and n.kind == "link" and (follow or i < len(parts) - 1):
+                if depth > 16:
+                    raise OSError(40, "Too many levels of symbolic links", p)
+                cur = self._resolve(n.target, True, depth + 1)
+        return cur or "/"
+
+    def lexists(self, p):
+        return self._norm(p, follow=False) in self.nodes
+
+    def readlink(self, p):
+        n = self.nodes.get(self._norm(p, follow=False))
+        if n is None or n.kind != "link":
+            raise OSError(22, "Invalid argument", p)
+        return n.target
 
     def _children(self, p):
         pre = "/" if p == "/" else p + "/"
@@ -526,7 +564,6 @@ class World:
     def exists(self, p):
         return self._norm(p) in self.nodes
 
-    lexists = exists
 
     def isdir(self, p):
         p = self._norm(p)
@@ -537,7 +574,8 @@ class World:
         return p in self.nodes and self.nodes[p].kind == "file"
 
     def islink(self, p):
-        return False
+        n = self.nodes.get(self._norm(p, follow=False)) if self.links else None
+        return n is not None and n.kind == "link"
 
     def _node(self, p):
         p = self._norm(p)
@@ -579,7 +617,7 @@ class World:
         self.mkdir(p)
 
     def replace(self, src, dst):
-        src, dst = self._norm(src), self._norm(dst)
+        src, dst = self._norm(src, follow=False), self._norm(dst, follow=False)
         self.op("replace", src, dst)
         if src not in self.nodes:
             raise FileNotFoundError(2, "No such file or directory", src)
@@ -592,7 +630,7 @@ class World:
     rename = replace
 
     def remove(self, p):
-        p = self._norm(p)
+        p = self._norm(p, follow=False)
         self.op("remove", p)
         if p not in self.nodes:
             raise FileNotFoundError(2, "No such file or directory", p)
@@ -601,7 +639,7 @@ class World:
     unlink = remove
 
     def rmdir(self, p):
-        p = self._norm(p)
+        p = self._norm(p, follow=False)
         self.op("rmdir", p)
         if self._children(p):
             raise OSError(39, "Directory not empty", p)
@@ -637,7 +675,8 @@ class World:
         if topdown:
             yield top, dirs, files
         for d in list(dirs):
-            yield from self.walk(posixpath.join(top, d), topdown)
+            if followlinks or not self.islink(posixpath.join(top, d)):
+                yield from self.walk(posixpath.join(top, d), topdown, onerror, followlinks)
         if not topdown:
             yield top, dirs, files
 
@@ -650,13 +689,13 @@ class World:
                 self.path = posixpath.join(base, name)
 
             def is_dir(self, follow_symlinks=True):
-                return w.isdir(self.path)
+                return w.isdir(self.path) and (follow_symlinks or not w.islink(self.path))
 
             def is_file(self, follow_symlinks=True):
-                return w.isfile(self.path)
+                return w.isfile(self.path) and (follow_symlinks or not w.islink(self.path))
 
             def is_symlink(self):
-                return False  # the modelled file system has no symbolic links
+                return w.islink(self.path)
 
             def stat(self, follow_symlinks=True):
                 return w.stat(self.path)
@@ -727,16 +766,17 @@ class FakeOSPath:
             setattr(self, k, getattr(posixpath, k))
         self._w = w
         self.exists, self.lexists, self.isdir, self.isfile, self.islink = w.exists, w.lexists, w.isdir, w.isfile, w.islink
+        self.samefile = lambda a, b_: w._norm(a) == w._norm(b_)
         self.getsize, self.getmtime = w.getsize, w.getmtime
 
     def abspath(self, p):
-        return self._w._norm(p)
+        return self._w._abs(p)  # (lexical: symbolic links are not resolved)
 
     def realpath(self, p, **kw):
         return self._w._norm(p)
 
     def relpath(self, p, start=None):
-        return posixpath.relpath(self._w._norm(p), self._w._norm(start if start is not None else "."))
+        return posixpath.relpath(self._w._abs(p), self._w._abs(start if start is not None else "."))
 
     def __getattr__(self, k):
         raise ModelGap("os.path.%s" % k)
@@ -797,6 +837,12 @@ class FakeOS:
                   "chmod", "truncate", "stat", "scandir", "fsync"):
             setattr(self, k, getattr(w, k))
         self.lstat = w.stat
+        self.readlink = w.readlink
+
+    def symlink(self, src, dst, *a, **kw):
+        w = self._w
+        w.op("symlink", w._abs(dst))
+        w.add_link(w._abs(dst), posixpath.normpath(posixpath.join(posixpath.dirname(w._abs(dst)), tokens.plain(src))), w.now)
 
     def getcwd(self):
         return self._w.cwd
